@@ -199,7 +199,10 @@ class MessageBase(Accessor):
         self, indent: Optional[int] = None, separators: Optional[Tuple[str, str]] = None
     ) -> str:
         """Dumps this message to a json string."""
-        return json.dumps(self.to_dict(), indent=indent, separators=separators)
+        # Byte arrays are kept as bytearray in messages, dump them as lists of numbers.
+        return json.dumps(
+            self.to_dict(), indent=indent, separators=separators, default=list
+        )
 
 
 class Processor:
